@@ -21,6 +21,8 @@ OWNER = {
 
 
 def owner_of(mm):
+    if mm['at'] == 'Deliver:unprotected':
+        return 'C03'
     if mm['component'] == 'reply' and mm['at'].endswith(':replay'):
         return 'C08'
     return OWNER.get(mm['component'], '?')
